@@ -24,10 +24,14 @@ def pool(tier, seed):
              'u8_Vu16_u8_VB5__A0000', 'B3_u8_B5__A0000', 'cptr_Fi32_bool__A0000', 'Fu8_Fstring_Fu16_u8__A0000']
     allp = {c['name']: c for c in cg.core_pool()}
     sel = [allp[n] for n in names if n in allp]
+    def racy(c):
+        d = dict(c)
+        d['racy'] = True
+        return d
     if tier == 'quick':
-        return sel[:8]
+        return sel[:8] + [racy(c) for c in (sel[1], sel[2], sel[4], sel[5])]
     rnd = [c for c in cg.random_pool(seed * 13 + 1, 12) if 'tracked' not in c['tags']]
-    return sel + rnd
+    return sel + rnd + [racy(c) for c in sel[:10]]
 
 
 def build(cfgs):
@@ -40,11 +44,11 @@ def build(cfgs):
             raise RuntimeError(r.stdout)
 
     def one(c):
-        binp = os.path.join(b.dir, 'c19_' + c['name'])
+        binp = os.path.join(b.dir, 'c19_' + c['name'] + ('_racy' if c.get('racy') else ''))
         if os.path.exists(binp):
             return binp, ''
         src = binp + '.cpp'
-        open(src, 'w').write(cg.emit_tu_c19(c))
+        open(src, 'w').write(cg.emit_tu_c19(c, bool(c.get('racy'))))
         r = core.sh([core.CXX] + flags + ['-c', src, '-o', binp + '.o'])
         if r.returncode != 0:
             return None, r.stdout
@@ -79,8 +83,9 @@ def run(tier, seed):
         c = cfgs[i]
         if binp is None:
             return ('compile', log, None)
-        st = os.path.join(d, c['name'] + '.json')
-        cur = os.path.join(d, c['name'] + '.plan')
+        tag = c['name'] + ('_racy' if c.get('racy') else '')
+        st = os.path.join(d, tag + '.json')
+        cur = os.path.join(d, tag + '.plan')
         # the schedules of one configuration run one after the other: each already uses up to 16 threads
         r = subprocess.run([binp, '--cases', str(cases), '--threads', str(threads), '--seed', str(core.shard_seed(seed, c['name'], pid)),
                             '--stats', st, '--current', cur], stdout=subprocess.PIPE, stderr=subprocess.STDOUT, text=True, env=ENV)
@@ -107,7 +112,7 @@ def run(tier, seed):
                 if len(ev['samples']) < 5:
                     ev['samples'].append({'configuration': cg.descr(c), 'schedule': smp})
         if rc != 0:
-            cur = os.path.join(d, c['name'] + '.plan')
+            cur = os.path.join(d, c['name'] + ('_racy' if c.get('racy') else '') + '.plan')
             if os.path.exists(cur):
                 with open(cur, 'a') as f:
                     f.write('\n'.join('# ' + l for l in out.splitlines() if 'WARNING: ThreadSanitizer' in l or ' #0 ' in l or ' #1 ' in l or 'Location' in l or 'mismatch' in l)[:4000] + '\n')
@@ -138,7 +143,10 @@ def replay_file(path, quiet=False):
     for line in open(path):
         if line.startswith('config '):
             name = line.split()[1]
-    c = cg.parse_name(name)
+    racy = name.endswith('+racyalloc')
+    c = cg.parse_name(name[:-len('+racyalloc')] if racy else name)
+    if racy:
+        c['racy'] = True
     b, res = build([c])
     binp, log = res[0]
     if binp is None:
